@@ -354,13 +354,35 @@ func init() {
 			}
 			n++
 			slot := c.Common().Args[1]
-			// the slot is a phi of the scan loop whose exit branch depends on GetTupleSize(slot)==0 / GetTupleCount
-			_, isPhi := resolveCell(slot).(*ssa.Phi)
-			r.Check(isPhi, "InsertTuple:slot-from-scan", "the slot written is the loop variable of the free-slot scan", "slot argument at "+w.InstrPos(c)+" is not the scan variable")
-			wit := (&PathQ{Fn: ins, Avoid: ifDep(IsCallTo(tsz)), Target: func(in ssa.Instruction) bool { return in == ssa.Instruction(c.(*ssa.Call)) }}).FromEntry()
-			_ = wit // an empty page never enters the loop body: the scan branch is on GetTupleCount then
-			wit2 := (&PathQ{Fn: ins, Avoid: ifDep(IsCallTo(cnt)), Target: func(in ssa.Instruction) bool { return in == ssa.Instruction(c.(*ssa.Call)) }}).FromEntry()
-			r.Check(wit2 == nil, "InsertTuple:scan-bounded-by-count", "the free-slot scan is bounded by GetTupleCount()", "path: "+w.DescribeWitness(ins, wit2))
+			// the slot written comes out of the free-slot scan: it depends (through a private helper, if the scan was
+			// extracted) on GetTupleCount(), and the code that computes it branches on GetTupleSize(candidate) — a
+			// constant or otherwise unrelated slot would overwrite a live row
+			isScanVar := func(x ssa.Value) bool {
+				if IsCallTo(cnt)(x) {
+					return true // "no free slot": the index of a new slot
+				}
+				ph, ok := x.(*ssa.Phi)
+				if !ok {
+					return false
+				}
+				// the loop variable of a loop whose continuation test depends on GetTupleCount()
+				hdr := ph.Block()
+				if i := blockIf(hdr); i != nil && DependsOn(i.Cond, func(y ssa.Value) bool { return y == ssa.Value(ph) }) && DependsOn(i.Cond, IsCallTo(cnt)) {
+					return true
+				}
+				return false
+			}
+			fromScan := w.DependsOnThroughHelpers(slot, isScanVar)
+			r.Check(fromScan, "InsertTuple:slot-from-scan", "the slot written is produced by the free-slot scan (a loop bounded by the tuple count, or the count itself)", "slot argument at "+w.InstrPos(c)+" does not come from a scan bounded by GetTupleCount()")
+			sizeTested := false
+			for _, f := range w.FuncAndHelpers(ins) {
+				for _, b := range f.Blocks {
+					if i := blockIf(b); i != nil && DependsOn(i.Cond, IsCallTo(tsz)) {
+						sizeTested = true
+					}
+				}
+			}
+			r.Check(sizeTested, "InsertTuple:scan-bounded-by-count", "the free-slot scan tests the size entry of its candidates", "no branch on GetTupleSize() in InsertTuple or its private helpers")
 		})
 		r.Floor("setTuple sites in InsertTuple", n, 1)
 		setCnt := w.MethodObj("storage/access", "TablePage", "SetTupleCount")
@@ -802,25 +824,34 @@ func init() {
 					if !isBin {
 						continue
 					}
+					// normalise to "old offset REL t" as it holds when the comparison is true
 					var t ssa.Value
-					strict := true
+					var rel token.Token
+					flip := map[token.Token]token.Token{token.LSS: token.GTR, token.LEQ: token.GEQ, token.GTR: token.LSS, token.GEQ: token.LEQ}
 					switch {
-					case (bo.Op == token.LSS || bo.Op == token.LEQ) && stripConv(bo.X) == ssa.Value(oldOff):
-						t, strict = bo.Y, bo.Op == token.LSS
-					case (bo.Op == token.GTR || bo.Op == token.GEQ) && stripConv(bo.Y) == ssa.Value(oldOff):
-						t, strict = bo.X, bo.Op == token.GTR
+					case stripConv(bo.X) == ssa.Value(oldOff) && flip[bo.Op] != 0:
+						t, rel = bo.Y, bo.Op
+					case stripConv(bo.Y) == ssa.Value(oldOff) && flip[bo.Op] != 0:
+						t, rel = bo.X, flip[bo.Op]
 					default:
 						continue
 					}
-					trueSucc := d.Succs[0]
-					if neg {
-						whySel = "the fix-up sits on the negated side of the comparison at " + w.InstrPos(i)
+					// which edge leads to the fix-up, and what does it say about the comparison?
+					onTrue := d.Succs[0] == child || (d.Succs[0].Dominates(child) && len(d.Succs[0].Preds) == 1)
+					onFalse := d.Succs[1] == child || (d.Succs[1].Dominates(child) && len(d.Succs[1].Preds) == 1)
+					if onTrue == onFalse {
+						whySel = "the fix-up is not on one side of the comparison at " + w.InstrPos(i)
 						break
 					}
-					if !(trueSucc == child || trueSucc.Dominates(child)) {
-						whySel = "the fix-up is not on the true side of the comparison at " + w.InstrPos(i)
+					holds := onTrue != neg // truth of the BinOp on the way to the fix-up
+					if !holds {
+						rel = map[token.Token]token.Token{token.LSS: token.GEQ, token.LEQ: token.GTR, token.GTR: token.LEQ, token.GEQ: token.LSS}[rel]
+					}
+					if rel != token.LSS && rel != token.LEQ {
+						whySel = "rows *above* the threshold are selected at " + w.InstrPos(i)
 						break
 					}
+					strict := rel == token.LSS
 					diff := lf(t).Sub(upper)
 					oldSize := delta.Positive()
 					switch {
